@@ -155,7 +155,8 @@ class Frame:
 
 
 def _contains_symbolic(x, depth=0):
-    if isinstance(x, (Sym, MDict, TokenM, Closure)):
+    from .absx import AbsColl, AbsSeqList, AbsMap, Seg, Ghost
+    if isinstance(x, (Sym, MDict, TokenM, Closure, AbsColl, AbsSeqList, AbsMap, Seg, Ghost)):
         return True
     if depth < 3 and isinstance(x, (list, tuple)):
         return any(_contains_symbolic(y, depth + 1) for y in x)
@@ -366,6 +367,12 @@ class Interp:
         # bound methods of real objects
         if isinstance(f, types.MethodType):
             func, selfobj = f.__func__, f.__self__
+            from .absx import Ghost
+            if isinstance(selfobj, Ghost):
+                return f(self, *args, **kwargs)
+            mm = models.lookup(func)
+            if mm is not None:
+                return mm(self, selfobj, *args, **kwargs)
             if front.is_repo_function(func):
                 return self.call_function(func, [selfobj] + list(args), kwargs)
             if isinstance(selfobj, logging.Logger) and func.__name__ in _LOGGER_METHODS:
@@ -511,6 +518,8 @@ class Interp:
         if mode is not None and (mode[0], mode[1]) == key:
             self.loop_mode_used = depth + 1
             innermost = (depth + 1 == len(modes))
+            if innermost:
+                ctx.notes.append("loop-mode-entered")
             case = mode[2]
             frame.locals.update(spec.carried(E, frame.locals, coll))
             for name, c in spec.inv(E, frame.locals):
